@@ -279,7 +279,7 @@ theorem strunc_dec (env : Env) (hE : EnvOk env) :
       have henc : enc (.msg fs) = leBytes 4 ((encFields fs).length + 1) ++ (encFields fs ++ [0]) := by
         simp [enc]
       rw [henc] at hc
-      simp only [sdec, sdecRecord, hn]
+      simp only [sdec, sdecRecord, hn, Facts.msgLimitExtra, Nat.add_zero]
       rcases hc.split with ⟨_, hr, hc2⟩ | ⟨_, hc1⟩
       · simp only [length_leBytes] at hc2
         rw [sreadU32_reads s _ hlen hr]
